@@ -157,6 +157,25 @@ pub fn gen_modes(r: &mut StdRng, p: &Profile) -> Vec<RealMode> {
     modes
 }
 
+/// Lets several patterns of a mode report the same token type (automaton-level checks C02/C03
+/// only: C02 speaks of the SET of token types that have a matching pattern). Scanning-level
+/// histories keep token types distinct: pattern.rs documents the token type as the pattern's
+/// identity, and the code resolves ties and lookaheads per token type (DESIGN 0.2).
+pub fn share_types(r: &mut StdRng, modes: &mut [RealMode]) {
+    for m in modes.iter_mut() {
+        if r.gen_bool(0.4) {
+            let plain: Vec<usize> = (0..m.pats.len()).filter(|k| m.pats[*k].la.is_none()).collect();
+            for _ in 0..r.gen_range(1..=2) {
+                if plain.len() >= 2 {
+                    let (x, y) = (*plain.choose(r).unwrap(), *plain.choose(r).unwrap());
+                    m.pats[y].tt = m.pats[x].tt;
+                }
+            }
+            m.trans.retain(|t| m.pats.iter().any(|p| p.tt == t.0));
+        }
+    }
+}
+
 fn gen_input(r: &mut StdRng, p: &Profile) -> String {
     let len = r.gen_range(p.min_len..=p.max_len);
     // a biased alphabet per input so that runs and repeats occur
@@ -431,7 +450,7 @@ const SOUP: &[&str] = &[
     "0", "1", "2", "9", "a", "b", "c", "d", "w", "s", "p", "P", "\\d", "\\w", "\\s", "\\D", "\\p", "\\P", "(?", "(?:", "(?i)", "(?=",
     "(?!", "(?<", "[^", "[:alpha:]", "[:^digit:]", "\\b", "\\B", "\\A", "\\z", "\\pL", "\\pN", "\\pX", "\\p{Greek}", "\\p{Lowercase}",
     "\\p{sc=Greek}", "\\P{XID_Start}", "*?", "+?", "??", "{2}", "{1,}", "{1,2}", "{1,2}?", "{,2}", "\\x41", "\\u{41}", "\\n",
-    "\\.", "\\-", "é", "€", "😀", " ", "(?P<n>", "(?x)", "(?-u)", "\\", "#",
+    "\\.", "\\-", "é", "€", "😀", " ", "(?P<n>", "(?x)", "(?-u)", "\\", "#", "(?-i:", "(?i:", "(?-u:", "(?s-m:", "(?-", "i:", "-s:",
 ];
 
 fn gen_c15_pattern(r: &mut StdRng) -> String {
